@@ -94,4 +94,41 @@ theorem close_async_eq_sync (st : St) (c : CloseScript) (d : DropScript) :
   intro h
   simp [close, dropAsync, dropSync, h]
 
+/-! ### `Drop` by runtime flavour (`dropAsyncOn`, used by the `sender_async` driver after a `flavor` line) -/
+
+/-- on a current-thread runtime the flavoured `Drop` is the `dropAsync` of the theorems above -/
+theorem drop_current_thread_eq_dropAsync (st : St) (d : DropScript) :
+    dropAsyncOn .currentThread st d = dropAsync d := by
+  unfold dropAsyncOn dropAsync
+  cases h : d.isOpen <;> simp
+
+/-- on a multi-thread runtime dropping the async controller does exactly what dropping the sync one does:
+it closes a link that still says it is open (three datagrams on every device, then `link.close`) -/
+theorem drop_multi_thread_eq_dropSync (st : St) (d : DropScript) :
+    dropAsyncOn .multiThread st d = dropSync st d := by
+  unfold dropAsyncOn dropSync
+  cases h : d.isOpen <;> simp
+
+/-- the flavoured `open`/`close` used by the driver are the functions the theorems above (and C04's) speak
+about: the sync copy, the async copy on a current-thread runtime, and — on a multi-thread runtime — the
+async copy behaves as the **sync** one in every respect (result, state and every call on the link) -/
+theorem openOn_eq (n : Nat) (opt : Option Nat) (o : OpenScript) :
+    openWithOptionOn none n opt o = openWithOption false n opt o ∧
+    openWithOptionOn (some .currentThread) n opt o = openWithOption true n opt o ∧
+    openWithOptionOn (some .multiThread) n opt o = openWithOption false n opt o := by
+  refine ⟨?_, ?_, ?_⟩ <;>
+    simp [openWithOptionOn, openWithOption, dropOn, drop_current_thread_eq_dropAsync, drop_multi_thread_eq_dropSync]
+
+theorem closeOn_eq (st : St) (c : CloseScript) (d : DropScript) :
+    closeOn none st c d = close false st c d ∧
+    closeOn (some .currentThread) st c d = close true st c d ∧
+    closeOn (some .multiThread) st c d = close false st c d := by
+  refine ⟨?_, ?_, ?_⟩ <;>
+    simp [closeOn, close, dropOn, drop_current_thread_eq_dropAsync, drop_multi_thread_eq_dropSync]
+
+/-- a controller dropped on a multi-thread runtime while the link says it is open calls `link.close` -/
+theorem drop_multi_thread_closes (st : St) (d : DropScript) (h : d.isOpen = true) (hc : d.close.isOpen = true) :
+    Call.close d.close.closeOk ∈ dropAsyncOn .multiThread st d := by
+  simp [dropAsyncOn, h, closeImpl, hc]
+
 end Autd3.Ctl
